@@ -67,6 +67,19 @@ Theorem C19_install_only_after_gates : forall cap s,
 Proof. exact install_only_after_gates'. Qed.
 Print Assumptions C19_install_only_after_gates.
 
+(* For every history of installs on one install directory sharing its download cache, in every
+   step: the final artifact is written only if the digest matched and the gate of THAT step
+   passed - its verifier was called in that step and accepted, or an unsigned install was
+   requested and allowed.  A cache hit only skips the download. *)
+Theorem C19_history_only_after_gates : forall cap ss c,
+  Forall (fun so =>
+            In (EWrite LFinal) (fst (snd so)) ->
+            s_digest_ok (fst so) = true /\ gate_ok (fst so) = true
+            /\ (s_allow_unsigned (fst so) = true \/ In EVerify (fst (snd so))))
+         (hist_run cap c ss).
+Proof. exact history_only_after_gates. Qed.
+Print Assumptions C19_history_only_after_gates.
+
 (* Before the (first) write of the final artifact nothing is written but bookkeeping below
    .registry: locks, the staging directory, the cache, the unsigned-install log. *)
 Theorem C19_nothing_outside_staging_before_rename : forall cap s pre post,
